@@ -28,7 +28,7 @@ RULE = ("(a) default registry, keyword side: the shipped keyword directory is wa
 ASSUMPTIONS = ["an empty include list is not asserted either way (the statement says 'if no include list')",
                "file lines are taken with bytes.splitlines(), as the documentation of the keyword files implies one word per line"]
 EXPECTED_WALL = {"quick": 30, "thorough": 200}
-REQUIRED = {"keyword_files_probed": 100, "canaries": 30, "include_exclude_configs": 500, "custom_dirs": 50, "dirs_with_equal_names": 5}
+REQUIRED = {"keyword_files_probed": 100, "canaries": 30, "include_exclude_configs": 500, "custom_dirs": 50, "dirs_with_equal_names": 5, "build_sequence_steps": 100}
 
 
 def plan(tier, seed):
@@ -37,6 +37,7 @@ def plan(tier, seed):
     shards = [{"name": "default", "gen": "default"}, {"name": "canaries", "gen": "canaries"},
               {"name": "inex-systematic", "gen": "inex-sys"}]
     shards += [{"name": f"inex-rand{i}", "gen": "inex-rand", "seconds": secs} for i in range(3)]
+    shards += [{"name": f"build-seq{i}", "gen": "build-seq", "seconds": secs} for i in range(2)]
     shards += [{"name": f"dirs{i}", "gen": "dirs", "seconds": secs} for i in range(4)]
     return shards
 
@@ -279,6 +280,35 @@ def run_shard(spec, ctx):
             exc = None if r.random() < 0.35 else r.sample(pool, r.randint(0, 8))
             judge(inc, exc, as_gen=r.random() < 0.3)
         return
+    if gen == "build-seq":
+        # histories of build_registry calls in ONE process (default keyword directory): every result must be exactly
+        # what its own arguments ask for, whatever was built before
+        import multidecoder
+        kwdir = os.path.join(os.path.dirname(multidecoder.__file__), "keywords")
+        n_files = sum(1 for p in pathlib.Path(kwdir).rglob("*") if p.is_file() and any(ln for ln in p.read_bytes().splitlines()))
+        step = 0
+        while not ctx.expired():
+            step += 1
+            x = r.random()
+            inc = None if x < 0.4 else r.sample(mods, r.randint(1, 6))
+            exc = None if r.random() < 0.5 else r.sample(mods, r.randint(1, 6))
+            case = {"kind": "build-seq", "step": step, "include": inc, "exclude": exc}
+            if not ctx.begin(case):
+                continue
+            ctx.evaluated()
+            ctx.count("build_sequence_steps")
+            reg = regmod.build_registry(include=inc, exclude=exc) if r.random() < 0.8 else Multidecoder(regmod.build_registry(include=inc, exclude=exc)).decoders
+            kws, ans = split_registry(reg)
+            sel = [m for m in mods if (inc is None or m in inc) and not (exc and m in exc)]
+            want = [(m, f) for m in sel for f in astmap[m]]
+            ok = check_analyzers(ans, want, reporter(case), f"build_registry(include={inc}, exclude={exc}) as call #{step} in this process")
+            if len(kws) != n_files:
+                reporter(case)("registry:keyword-searchers:count-after-history", f"call #{step}: {len(kws)} keyword searchers, {n_files} non-empty shipped files")
+            if ok:
+                ctx.nontrivial(repr((step, inc, exc)))
+            if step % 50 == 1:
+                ctx.sample({"build_registry_call": step, "include": inc, "exclude": exc, "analyzers": len(ans), "keyword_searchers": len(kws)})
+        return
     # custom keyword directories
     base = tempfile.mkdtemp(prefix="vf_c18_", dir=env.scratch_root())
     try:
@@ -343,6 +373,9 @@ def replay(case, ctx):
     spec_for = {"default": "default", "canary": "canaries"}
     if case.get("kind") in spec_for:
         run_shard({"name": "replay", "gen": spec_for[case["kind"]]}, ctx)
+        return
+    if case.get("kind") == "build-seq":
+        run_shard({"name": "replay-build-seq", "gen": "build-seq", "seconds": 5}, ctx)
         return
     if case.get("kind") == "inex":
         from multidecoder import registry as regmod
